@@ -32,6 +32,10 @@ C19_FailPairs == { <<AssertPrfOn("c1"), AssertOn("c1")>>, <<AssertPrfOn("c1"), A
                    <<Failing(AssertOn("c1"), <<0, 40, 0>>), AssertOn("c1")>>, <<Failing(AssertOn("c1"), <<40, 0, 0>>), AssertOn("c1")>>,
                    <<Failing(Register("u3", TRUE), <<40, 0, 0>>), Register("u4", TRUE)>>,
                    <<Failing(Register("u3", TRUE), <<40, 0, 0>>), AssertOn("c1")>> }
+\* counters next to the 32-bit maximum: one more assertion fits, the next one must not reuse the value
+C19_HighStores == { <<Cred("c1", "r1", "u1", Ctr(65535, 65534), "none"), Cred("c2", "r1", "u2", NoCtr, "none")>> }
+C19_HighPairs == { <<AssertOn("c1"), AssertOn("c1")>>, <<AssertOn("c1"), AssertOn("c2")>> }
+C19_HighTriples == { <<AssertOn("c1"), AssertOn("c1"), AssertOn("c1")>> }
 C19_Stores == { <<Cred("c1", "r1", "u1", Ctr(0, 5), "none"), Cred("c2", "r1", "u2", NoCtr, "none")>> }
 \* two concurrent ceremonies: assert/assert on one credential, assert/register, register/register
 C19_Pairs == { <<AssertOn("c1"), AssertOn("c1")>>, <<AssertOn("c1"), AssertOn("c2")>>, <<AssertOn("c1"), Register("u3", TRUE)>>,
@@ -51,4 +55,9 @@ C19_PlanOk(p) == p.cfg.storeKind = "memory" => \A i \in 1..Len(p.cers) : ~IdLess
 C19_Triples == { <<AssertOn("c1"), AssertOn("c1"), AssertOn("c1")>>, <<AssertOn("c1"), AssertOn("c1"), Register("u3", TRUE)>>,
                  <<AssertOn("c1"), Register("u3", TRUE), Register("u4", TRUE)>>,
                  <<AssertAny, Register("u3", TRUE), AssertOn("c2")>>, <<Register("u3", TRUE), Register("u3", TRUE), AssertAny>> }
+\* a store that reports a transient CTAP1 condition (channel busy, timeout) at a lookup while a writer is about
+C19_BusyPairs == { <<Failing(AssertOn("c1"), <<6, 0, 0>>), Register("u3", TRUE)>>, <<Failing(AssertAny, <<6, 0, 0>>), AssertOn("c1")>>,
+                   <<Failing(AssertOn("c2"), <<5, 0, 0>>), AssertOn("c1")>>,
+                   <<Failing(RegisterExcluding("u3", <<"c1">>), <<6, 0, 0>>), AssertOn("c1")>> }
+C19_FailPairsAll == C19_FailPairs \cup C19_BusyPairs
 =============================================================================
